@@ -374,7 +374,7 @@ func (d *driver) check() int {
 		if k.Probe == "" && k.Status == "fixed" {
 			continue // schedule-dependent defect: re-checked by the search itself, no fixed-schedule probe
 		}
-		if k.Probe == "none-wasm" {
+		if k.Probe == "none-wasm" || strings.HasPrefix(k.Probe, "wasm:") {
 			continue // re-checked by the engine's js/wasm phase, which has no native probe
 		}
 		res := d.runIsolated(&Request{Kind: "probe", Prop: d.prop, Tier: d.tier, Probe: k.Probe, Keep: true})
